@@ -1013,6 +1013,12 @@ func (c *Ctx) RuleLock(pkg *ssa.Package, varName, muName string) {
 					// only drawing methods: re-seeding the shared generator restarts its stream within a run — with a seed
 					// installed before, or with a clock reading that two re-seedings can share (a per-call
 					// Seed(time.Now().Unix()) repeats the same IDs for a whole second)
+					// a method of the generator's own type: a plain function handed the generator as its first argument
+					// (`checked(random)`) can return or keep it, and what it does is not read here
+					if f := call.Call.StaticCallee(); f != nil && f.Signature.Recv() == nil {
+						c.add("violated", "C19.lock", fn, r.Pos(), varName+" escapes (handed to "+FnName(f)+", not a method call receiver)")
+						continue
+					}
 					if f := call.Call.StaticCallee(); f == nil || f.Name() == "Seed" {
 						c.addc("violated", "C19.lock", fn, r.Pos(), "reseed", "the shared generator is re-seeded after initialisation ("+varName+".Seed): the stream restarts, and IDs already handed out are produced again whenever two seeds coincide (a clock reading taken twice within its resolution, a saved seed)", "random.Seed(time.Now().Unix()) on every call: 1000 draws, 2 distinct IDs")
 					}
@@ -1097,6 +1103,8 @@ func (c *Ctx) onlyDrawingCallbacks(fn *ssa.Function, fp *ssa.Parameter, call *ss
 					}
 					if f := mc.Call.StaticCallee(); f == nil || f.Name() == "Seed" {
 						return "the callback re-seeds the generator or calls it dynamically"
+					} else if f.Signature.Recv() == nil {
+						return "the callback at " + c.Prog.Fset.Position(cb.Pos()).String() + " hands the generator to " + FnName(f) + " (not a method call)"
 					}
 				}
 			}
@@ -1509,6 +1517,55 @@ func (c *Ctx) RuleTableConst(rule string, g *ssa.Global) {
 						bad = true
 					}
 				default:
+					// a map or slice table is a reference: the loaded value may be read (looked up, indexed, ranged
+					// over, measured), not handed on, deleted from or cleared
+					if u, ok := in.(*ssa.UnOp); ok && u.Op == token.MUL && u.X == ssa.Value(g) && u.Referrers() != nil {
+						_, isMap := u.Type().Underlying().(*types.Map)
+						_, isSlice := u.Type().Underlying().(*types.Slice)
+						for _, r := range *u.Referrers() {
+							if !isMap && !isSlice {
+								break
+							}
+							switch y := r.(type) {
+							case *ssa.Lookup, *ssa.Range, *ssa.DebugRef, *ssa.Index:
+								continue
+							case *ssa.IndexAddr:
+								reads := true
+								for _, rr := range *y.Referrers() {
+									if l, ok := rr.(*ssa.UnOp); !ok || l.Op != token.MUL {
+										if _, dbg := rr.(*ssa.DebugRef); !dbg {
+											reads = false
+										}
+									}
+								}
+								if reads {
+									continue
+								}
+								if st := storeThrough(y); st {
+									continue // reported above as an element write
+								}
+							case *ssa.MapUpdate:
+								if y.Map == ssa.Value(u) {
+									continue // reported above
+								}
+							case *ssa.BinOp:
+								continue // compared with nil
+							case *ssa.Call:
+								if bi, ok := y.Call.Value.(*ssa.Builtin); ok {
+									switch bi.Name() {
+									case "len", "cap":
+										continue
+									case "delete", "clear":
+										c.addc("violated", rule, fn, y.Pos(), "write "+g.Name(), "entries of table "+g.Name()+" are removed at run time ("+bi.Name()+"): the constants the rules read are no longer what the code uses", "")
+										bad = true
+										continue
+									}
+								}
+							}
+							c.addc("undecided", rule, fn, r.Pos(), "reference "+g.Name(), "the table "+g.Name()+" (a reference) is handed on ("+fmt.Sprintf("%T", r)+"): who writes through it is not followed", "")
+							bad = true
+						}
+					}
 					for _, op := range in.Operands(nil) {
 						if *op == ssa.Value(g) {
 							if u, ok := in.(*ssa.UnOp); ok && u.Op == token.MUL {
@@ -1637,4 +1694,14 @@ func onlyMutexReceiver(ld *ssa.UnOp) bool {
 		}
 	}
 	return true
+}
+
+// storeThrough: the element address is the target of a store.
+func storeThrough(ia *ssa.IndexAddr) bool {
+	for _, r := range *ia.Referrers() {
+		if st, ok := r.(*ssa.Store); ok && st.Addr == ssa.Value(ia) {
+			return true
+		}
+	}
+	return false
 }
